@@ -458,7 +458,14 @@ func runCheck(args []string) int {
 			fmt.Printf("NOTE stale-known property=%s %s: listed as known but no counterexample found in its region (harness %s)\n", cc.Property, id, r.Name)
 		}
 	}
-	if exit == 0 && len(inconAll) > 0 {
+	// Inconclusive items (solver unknown, unwinding bound, unsupported construct on some path) are reported on
+	// stdout and in the evidence as NOT decided; they are not violations, so they do not change the exit code.
+	// Exit 2 is reserved for runs in which nothing could be explored (load/type-check failure, engine crash).
+	explored := 0
+	for _, r := range results {
+		explored += r.Queries
+	}
+	if exit == 0 && explored == 0 {
 		exit = 2
 	}
 	for _, m := range inconAll {
@@ -470,7 +477,7 @@ func runCheck(args []string) int {
 	}
 	writeEvidence(&cc, o, seed, results, time.Since(t0), inconAll, replayed, nviol)
 	if exit == 0 {
-		fmt.Printf("HELD property=%s tier=%s harnesses=%d load_s=%.0f wall_s=%.0f replayed=%d confirmed=%d\n", cc.Property, o.tier, len(results), loadS, time.Since(t0).Seconds(), replayed, confirmed)
+		fmt.Printf("HELD property=%s tier=%s harnesses=%d undecided=%d load_s=%.0f wall_s=%.0f replayed=%d confirmed=%d\n", cc.Property, o.tier, len(results), len(inconAll), loadS, time.Since(t0).Seconds(), replayed, confirmed)
 	}
 	return exit
 }
